@@ -11,6 +11,9 @@ checks = {
  "C16": dict(
    text="All 2^32 words and all 2^32 byte quadruples are decided by the solver on the real BytesFromLowBits/I32FromBytes (bit loops executed with constant trip counts, diamonds merged to ite terms): no bound is left open, so within the trusted base this is a decision for every input, not a sample.",
    design="§5 C16", note=BASE_NOTE + "No assumption on inputs."),
+ "C02": dict(
+   text="For each of the 45 mnemonics and each register-name pattern the real Run/ReadRegisters/WriteRegisters/MemoryRead/MemoryWrite are executed symbolically with all register values, immediates, offsets, pc, branch target and loaded bytes as SMT variables and compared with the RV32IM definition written in the harness; the solver decides every assertion for all 2^32..2^160 operand combinations of that pattern (quick: canonical alias patterns; thorough: all 5^k name tuples).",
+   design="§5 C02", note=BASE_NOTE + "Assumes shift immediates in 0..31, pc/targets multiples of 4 in [0,2^20), code uniform in register names beyond {zero,ra,t0,t1,t2}; division by zero must be an error value."),
 }
 
 not_yet = {p: "check not built yet in this session (work in progress; see DESIGN.md §5)" for p in ALL if p not in checks}
